@@ -4,7 +4,7 @@ import importlib
 # property -> list of (rule module, configs it needs in quick tier)
 PROPERTY_RULES = {
     "C01": ["r_a10", "r_a9", "r_a8", "r_a2", "r_o3", "r_a12", "r_a13", "r_a4", "r_a16", "r_a17", "r_a19", "r_a18", "r_a20", "r_a21", "r_a23"],
-    "C02": ["r_a6", "r_a4", "r_a8", "r_a2", "r_o3", "r_e1", "r_b1", "r_a13", "r_a14", "r_a16", "r_a17", "r_a18", "r_a9", "r_c6", "r_a20", "r_a21", "r_a23"],
+    "C02": ["r_a6", "r_a4", "r_a8", "r_a2", "r_o3", "r_e1", "r_b1", "r_a13", "r_a14", "r_a16", "r_a17", "r_a18", "r_a9", "r_c6", "r_a20", "r_a21", "r_a23", "r_u1"],
     "C03": ["r_a2", "r_a3", "r_a8", "r_a14", "r_b1", "r_a17", "r_a4"],
     "C04": ["r_a8", "r_e1", "r_a6", "r_a2", "r_b1", "r_o3", "r_a4", "r_a17", "r_a18", "r_a21", "r_a23"],
     "C05": ["r_b1", "r_o3", "r_a2", "r_a12"],
@@ -13,13 +13,13 @@ PROPERTY_RULES = {
     "C08": ["r_a11", "r_o3", "r_a2", "r_a4", "r_a8", "r_a12", "r_e2", "r_a15", "r_a22"],
     "C09": ["r_c4", "r_c3", "r_c1", "r_c5", "r_c7", "r_c8", "r_c9"],
     "C10": ["r_c2", "r_c1", "r_e1", "r_c5", "r_c7", "r_c8", "r_c4", "r_c3", "r_c9"],
-    "C11": ["r_c2", "r_c1", "r_a6", "r_c5", "r_c4", "r_e1", "r_a8", "r_a9", "r_a16", "r_a21", "r_c9", "r_a23"],
+    "C11": ["r_c2", "r_c1", "r_a6", "r_c5", "r_c4", "r_e1", "r_a8", "r_a9", "r_a16", "r_a21", "r_c9", "r_a23", "r_c8"],
     "C12": ["r_c4", "r_e1", "r_c9"],
-    "C13": ["r_e4", "r_a6", "r_c3", "r_e1", "r_a13", "r_a16", "r_c7", "r_a8", "r_a20"],
+    "C13": ["r_e4", "r_a6", "r_c3", "r_e1", "r_a13", "r_a16", "r_c7", "r_a8", "r_a20", "r_c8"],
     "C14": ["r_d1"],
     "C15": ["r_d2", "r_d3"],
     "C16": ["r_e1", "r_e2", "r_e5", "r_b1", "r_o3", "r_a2", "r_a9", "r_e6"],
-    "C17": ["r_c6", "r_a3", "r_c5", "r_a14", "r_a6", "r_a16"],
+    "C17": ["r_c6", "r_a3", "r_c5", "r_a14", "r_a6", "r_a16", "r_u1"],
     "C18": ["r_a15", "r_a2", "r_a12", "r_a22", "r_a24"],
 }
 
@@ -44,7 +44,7 @@ CLAUSES = {
     "C17": "no integer reported by a safe user trait (remaining, chunks_vectored count, size_hint, Cursor::position) reaches an unsafe extent (copy length, "
            "raw-slice length, pointer offset, set_len, advance_mut, array cast, handle extent fields) unsanitised, interprocedurally; copy loops use real slice "
            "lengths; from_owner calls as_ref once, after boxing, and unwinds into Drop; unchecked indexing only under a test of the indexed slice's own length; "
-           "no user code runs while the destructor of a storage owner is suppressed (ManuallyDrop windows)",
+           "no user code runs while the destructor of a storage owner is suppressed (ManuallyDrop windows); no reference to a non-byte type is made out of uninitialised storage (U1: scratch arrays handed to a caller-supplied impl are initialised)",
     "C15": "Debug: the sets of byte values reaching each write partition 0..=255 and every branch's template decodes, by the byte-string-literal grammar, "
            "to exactly the guarded byte, framed by b\" and \"; hex: one {:02x}/{:02X} per byte; serde: each entry point passes its whole argument through "
            "content-preserving conversions, visit_seq keeps every element in order",
@@ -83,7 +83,7 @@ CLAUSES = {
            "refcount overflow aborts; the length of a BytesMut / slice cursor grows only over bytes written just before (every safe set_len / advance_mut is a shrink or is dominated by a covering write at the first unexposed byte, A16); the tagged word in BytesMut.data keeps its bit fields in range and encodes vec position 0 whenever the pointer is the start of its Vec (A17, upper-bound analysis with control-block fields bounded at every constructor)",
     "C13": "in every safe &mut-self method with integer/range/slice arguments no state write can reach an argument-dependent panic (panic strictly before "
            "mutation); argument checks dominate the unchecked operations they protect in release builds; overflowing requests cannot wrap silently; "
-           "Bytes::slice produces every result (also the empty one) only after both range checks; an over-long truncate / resize argument cannot make unwritten bytes visible (A16); every store to Bytes.len / Bytes.ptr narrows the view on every path (A20: offset + len' <= len entailed from the path's release-mode conditions)",
+           "Bytes::slice produces every result (also the empty one) only after both range checks; an over-long truncate / resize argument cannot make unwritten bytes visible (A16); every store to Bytes.len / Bytes.ptr narrows the view on every path (A20: offset + len' <= len entailed from the path's release-mode conditions); a panic for a short buffer is raised only where available < requested is known (C8)",
     "C09": "Chain touches its second half only on paths where the first is exhausted or fully accounted for (incl. chunks_vectored); "
            "Take truncates by min(inner, limit) and pairs every inner advance with limit -= same operand; the five leaf Bufs, the inherited defaults "
            "and IntoIter: remaining()/chunk() cut from one value, advance moves the cursor by exactly its argument, VecDeque lists front before back, "
@@ -92,7 +92,7 @@ CLAUSES = {
            "Reader/Writer transfer exactly min(available, requested), return it, never construct Err; accessors are plain field accessors, constructors store "
            "their arguments unchanged; Take::chunks_vectored bounds the inner count by dst.len(); in every function (so also in any further override of Read / Write / Iterator "
            "methods) a byte count handed to a cursor movement rests on an observation of that cursor that is still current, and an index into chunk() on fresh evidence of "
-           "non-emptiness (C9). Not decided: whether a loop of judged transfers in a new override ends at the right moment (sum of transfers = min(available, total requested))",
+           "non-emptiness (C9); a has_remaining override of Take / Limit is true exactly where limit != 0 and the inner buffer has bytes left. Not decided: whether a loop of judged transfers in a new override ends at the right moment (sum of transfers = min(available, total requested))",
     "C05": "free/take-over decisions are taken on the result of the atomic RMW itself (fetch_sub == 1; CAS 1->0; publishing CAS of a fresh control block "
            "whose loser uses the winner's value); every take-over is dominated by a uniqueness test",
     "C06": "every atomic site has at least the ordering its role requires (decrement >= Release; Acquire before free; Acquire uniqueness test before "
@@ -100,9 +100,9 @@ CLAUSES = {
            "by such a test locally or at all call sites",
     "C10": "every typed getter uses the conversion/type/byte order/width its name promises, get_X and try_get_X decode identically, "
            "error fields and cursor movement use the value width; no profile-dependent arithmetic on caller-controlled integers in the decoders; "
-           "the chunk-gathering slow path loops until the destination is full; the leaf cursors' remaining()/chunk() agree; a try_* reader that returns Err has consumed nothing on any path (own Err, `?` residual, fallible tail call: C8)",
+           "the chunk-gathering slow path loops until the destination is full; the leaf cursors' remaining()/chunk() agree; a try_* reader that returns Err has consumed nothing on any path (own Err, `?` residual, fallible tail call, io::Read::read_exact & co. which consume before failing: C8); every TryGetError { requested, available } - returned or handed to panic_advance - is built under available < requested, so a request the buffer can serve (zero width at the end, an exact fit) is never refused (C8); what from_*_bytes / from_bits decoded is handed out as it is - arithmetic on it is accepted only if, evaluated for every width 0..=8, it selects exactly the bytes read (C2)",
     "C11": "every typed putter uses the conversion/type/byte order/width its name promises (be = tail, le = head slicing of the 8-byte encoding); copy loops "
-           "move min(real lengths) and stop only on exhaustion; BytesMut's growth path moves the bytes in the right direction before re-basing; advance_mut after a specialised write exposes exactly bytes that a dominating write at the write cursor covered (A16); what a putter encodes is its argument through bit-preserving conversions only (C2 value flow); no raw pointer into the buffer survives a call that may move it (A21); bounds taken from a cursor are current where they are used (C9)",
+           "move min(real lengths) and stop only on exhaustion; BytesMut's growth path moves the bytes in the right direction before re-basing; advance_mut after a specialised write exposes exactly bytes that a dominating write at the write cursor covered (A16); what a putter encodes is its argument through bit-preserving conversions only (C2 value flow); no raw pointer into the buffer survives a call that may move it (A21); bounds taken from a cursor are current where they are used (C9); a put that fits exactly is not refused: the TryGetError given to panic_advance is built under available < requested (C8)",
     "C16": "no profile-dependent arithmetic (overflow/shift asserts, explicit wrapping ops) on caller-controlled integers anywhere in the crate; the "
            "even/odd promotable vtables are slot-wise isomorphic modulo unmasking, the parity dispatch is consistent and vtable identity tests cover both parities; the verdict tables of every rule of the framework (not only the rules listed here) agree between the analysed "
            "configurations - default / no_std / portable-atomic / release-like in the quick tier, K1..K6 in the thorough tier (E3; only the differences are reported here); the conditions of debug_assert! are effect-free, so builds with and without debug assertions run the same state changes (E5); "
